@@ -295,6 +295,27 @@ def run(F, R, tier):
     sc = [n for n in F.all_nodes() if n.get("k") == "Call" and (n.get("fn") or "").endswith("is_expr_ident_or_member_idents") and n["_top"] is not ie]
     R.floor("C10-g users of the identifier-chain test", len(sc), 2)
 
+    # ---------------- C10-h: an expression is left in place only if ALL its parts may be ----------
+    ml = F.body(T + "maybe_transform_expr_if_leavable")
+    def is_rec(n):
+        # the local closure `recurse(..)` or a direct recursive call
+        if n.get("k") == "Call":
+            f_ = peel(n.get("f", {})) if "f" in n else {}
+            if (n.get("fn") or "").endswith("maybe_transform_expr_if_leavable"):
+                return True
+            if f_.get("res") == "local" and any(mentions_call(y, [T + "maybe_transform_expr_if_leavable"]) for y in through_locals(f_)):
+                return True
+        if n.get("k") == "MethodCall" and (n.get("fn") or "").endswith("maybe_transform_expr_if_leavable"):
+            return True
+        return False
+    recs = [n for n in ml["_nodes"] if is_rec(n)]
+    R.floor("C10-h recursive inspections of sub-expressions", len(recs), 15)
+    ors = [n for n in ml["_nodes"] if n.get("k") == "Binary" and n["op"] == "||" and any(is_within(r_, n) for r_ in recs)]
+    R.ob("C10-h", "sub-expression verdicts are only ever combined with `&&`", not ors,
+         "a composite expression is considered leavable when only one of its parts is (`%s`): the other part stays in the emitted declaration although it may contain calls / references to removed code" % (expr_text(ors[0])[:70] if ors else ""), where(ors[0]) if ors else "")
+    negs = [n for n in ml["_nodes"] if n.get("k") == "Unary" and n["op"] == "!" and any(is_within(r_, n) for r_ in recs)]
+    R.ob("C10-h", "a sub-expression verdict is never inverted", not negs, "`%s`" % (expr_text(negs[0])[:50] if negs else ""), where(negs[0]) if negs else "")
+
     # return-statement analysis: the whole analysis is only aborted once the verdict is final (Multiple)
     n_brk = 0
     for b in F.bodies:
